@@ -123,3 +123,55 @@ package PVM
 //@   ensures okbytes0: memIndex >= 65536 && writable(interp.Memory, memIndex, uint32(offset)) ==> forall(j, 0, 4096, (j < int(memIndex%4096) || j >= int(memIndex%4096) + offset) ==> p0v[j] == old(p0v[j]))
 //@   ensures okbytes1: memIndex >= 65536 && writable(interp.Memory, memIndex, uint32(offset)) && crosses(memIndex, uint32(offset)) ==> forall(j, 0, 4096, j >= int(memIndex%4096) + offset - 4096 ==> p1v[j] == old(p1v[j]))
 //@   opt slow=3
+
+// ---- loads / stores through the memory primitives (modular: the callee contracts above are used at the call sites) ----
+//@ table instrMetaExecForOpcode load
+//@   props C01 C02 C03 C05
+//@   spec pvm.smt2
+//@   key op uint8 52..58,124..130
+//@   let a = spec.pvm_mem_addr(op, interp.Registers[instr.Src[0]], instr.Imm[0])
+//@   let n = uint32(spec.pvm_mem_width(op))
+//@   requires nonnil: interp != nil && instr != nil && regs_ok(op, instr)
+//@   requires mem: access_wf(interp.Memory, a)
+//@   ensures low: a < 65536 ==> result0 == ExitPanic && result1 == instr.PC && frame_only()
+//@   ensures fault: a >= 65536 && !readable(interp.Memory, a, n) ==> is_fault(result0, a, n) && result1 == instr.PC && frame_only()
+//@   ensures ok: a >= 65536 && readable(interp.Memory, a, n) ==> result0 == ExitContinue && result1 == instr.PC && forall(i, 0, 13, interp.Registers[i] == ite(i == int(instr.Dst), spec.pvm_load_ext(op, old(mload(interp.Memory, a, n))), old(interp.Registers[i]))) && frame_only(interp.Registers)
+
+//@ table instrMetaExecForOpcode store
+//@   props C01 C02 C03 C05
+//@   spec pvm.smt2
+//@   key op uint8 30..33,59..62,70..73,120..123
+//@   let a = spec.pvm_mem_addr(op, interp.Registers[instr.Src[0]], instr.Imm[0])
+//@   let n = uint32(spec.pvm_mem_width(op))
+//@   let v = spec.pvm_store_trunc(op, ite(spec.pvm_store_imm(op), instr.Imm[1], interp.Registers[instr.Dst]))
+//@   let p0v = interp.Memory.Pages[a/4096].Value
+//@   let p1v = interp.Memory.Pages[ite(crosses(a, n), nextpg(a), a/4096)].Value
+//@   requires nonnil: interp != nil && instr != nil && regs_ok(op, instr)
+//@   requires mem: access_wf(interp.Memory, a)
+//@   ensures low: a < 65536 ==> result0 == ExitPanic && result1 == instr.PC && frame_only()
+//@   ensures fault: a >= 65536 && !writable(interp.Memory, a, n) ==> is_fault(result0, a, n) && result1 == instr.PC && frame_only()
+//@   ensures ok: a >= 65536 && writable(interp.Memory, a, n) ==> result0 == ExitContinue && result1 == instr.PC && forall(k, 0, 8, k < int(n) ==> mbyte(interp.Memory, a, uint32(k)) == (v >> (8*uint64(k))) & 0xff)
+//@   ensures okframe: a >= 65536 && writable(interp.Memory, a, n) ==> frame_only(elems(p0v), elems(p1v))
+//@   ensures okbytes0: a >= 65536 && writable(interp.Memory, a, n) ==> forall(j, 0, 4096, (j < int(a%4096) || j >= int(a%4096) + int(n)) ==> p0v[j] == old(p0v[j]))
+//@   ensures okbytes1: a >= 65536 && writable(interp.Memory, a, n) && crosses(a, n) ==> forall(j, 0, 4096, j >= int(a%4096) + int(n) - 4096 ==> p1v[j] == old(p1v[j]))
+
+// ---- dynamic jumps (A.18): jump_ind (50) and load_imm_jump_ind (180) ----
+//@ pred jt_b(p, i, k) = uint64(p.JumpTable.Data[int(uint64(i)*uint64(p.JumpTable.Length) + uint64(k))])
+//@ pred jt_entry(p, i) = ite(p.JumpTable.Length > 0, jt_b(p, i, 0), 0) | ite(p.JumpTable.Length > 1, jt_b(p, i, 1) << 8, 0) | ite(p.JumpTable.Length > 2, jt_b(p, i, 2) << 16, 0) | ite(p.JumpTable.Length > 3, jt_b(p, i, 3) << 24, 0) | ite(p.JumpTable.Length > 4, jt_b(p, i, 4) << 32, 0) | ite(p.JumpTable.Length > 5, jt_b(p, i, 5) << 40, 0) | ite(p.JumpTable.Length > 6, jt_b(p, i, 6) << 48, 0) | ite(p.JumpTable.Length > 7, jt_b(p, i, 7) << 56, 0)
+//@ pred blockstart64(p, t) = t < uint64(len(p.Bitmasks)) && p.Bitmasks[int(t)] == 3
+
+//@ table instrMetaExecForOpcode djump
+//@   props C01 C02 C03
+//@   spec pvm.smt2
+//@   key op uint8 50,180
+//@   let a = uint32(interp.Registers[instr.Src[0]] + ite(op == 50, instr.Imm[0], instr.Imm[1]))
+//@   let valid = a != 0 && uint64(a) <= uint64(interp.Program.JumpTable.Size)*2 && a%2 == 0
+//@   let e = jt_entry(interp.Program, a/2 - 1)
+//@   requires nonnil: interp != nil && instr != nil && interp.Program != nil
+//@   requires wf: wf_code(interp.Program) && wf_jt(interp.Program) && regs_ok(op, instr)
+//@   ensures halt: a == 4294901760 ==> result0 == ExitHalt && result1 == instr.PC
+//@   ensures invalid: a != 4294901760 && !valid ==> result0 == ExitPanic && result1 == instr.PC
+//@   ensures badtarget: a != 4294901760 && valid && !blockstart64(interp.Program, e) ==> result0 == ExitPanic && result1 == instr.PC
+//@   ensures ok: a != 4294901760 && valid && blockstart64(interp.Program, e) ==> result0 == ExitContinue && uint64(result1) == e
+//@   ensures regs: forall(i, 0, 13, interp.Registers[i] == ite(op == 180 && i == int(instr.Dst), instr.Imm[0], old(interp.Registers[i])))
+//@   ensures frame: frame_only(interp.Registers)
